@@ -40,9 +40,14 @@ func (k *zzKV) Get(ctx context.Context, key ds.Key) ([]byte, error) {
 	}
 	return nil, ds.ErrNotFound
 }
-func (k *zzKV) Has(ctx context.Context, key ds.Key) (bool, error) { return k.find(key.String()) >= 0, nil }
+func (k *zzKV) Has(ctx context.Context, key ds.Key) (bool, error) {
+	return k.find(key.String()) >= 0, nil
+}
 func (k *zzKV) GetSize(ctx context.Context, key ds.Key) (int, error) { return 0, nil }
-func (k *zzKV) Put(ctx context.Context, key ds.Key, v []byte) error { k.put(key.String(), v); return nil }
+func (k *zzKV) Put(ctx context.Context, key ds.Key, v []byte) error {
+	k.put(key.String(), v)
+	return nil
+}
 func (k *zzKV) Delete(ctx context.Context, key ds.Key) error { return nil }
 func (k *zzKV) Sync(ctx context.Context, p ds.Key) error     { return nil }
 func (k *zzKV) Close() error                                 { return nil }
@@ -79,8 +84,8 @@ func (r *zzResults) NextSync() (query.Result, bool) {
 	return v, ok
 }
 func (r *zzResults) Rest() ([]query.Entry, error) { return nil, nil }
-func (r *zzResults) Close() error                  { return nil }
-func (r *zzResults) Done() <-chan struct{}         { return nil }
+func (r *zzResults) Close() error                 { return nil }
+func (r *zzResults) Done() <-chan struct{}        { return nil }
 
 func (k *zzKV) Query(ctx context.Context, q query.Query) (query.Results, error) {
 	ch := make(chan query.Result, 16)
